@@ -1,6 +1,7 @@
 import CryoCat.Drv.Proto
 import CryoCat.Model.C02_Num
 import CryoCat.Model.C02_Comments
+import CryoCat.Model.C02_Remove
 namespace CryoCat.Drv.C02
 open Lean CryoCat CryoCat.C02
 
@@ -17,7 +18,8 @@ def blockJson (b : Block) : Json :=
   Json.mkObj [("name", str b.name),
               ("cols", Json.arr (b.cols.map str).toArray),
               ("rows", Json.arr (b.rows.map (fun r => Json.arr (r.map str).toArray)).toArray),
-              ("kinds", Json.arr ((blockKinds isNumTok b).map Json.bool).toArray)]
+              ("kinds", Json.arr ((blockKinds isNumTok b).map Json.bool).toArray),
+              ("ints", Json.arr ((blockInts b).map Json.bool).toArray)]
 
 def blockCJson (p : Block × List Comment) : Json :=
   (blockJson p.1).setObjVal! "comments" (Json.arr (p.2.map str).toArray)
@@ -53,8 +55,9 @@ def parseCell (j : Json) : Option Cell :=
     | .ok n => some (.int n)
     | .error _ => none
 
+/-- a block without `name` is written with the default specifier (`specifiers=None`) -/
 def parseBlock (j : Json) : Option TBlock := do
-  let name ← getStr? j "name"
+  let name := (getStr? j "name").getD (String.ofList Gen.C02.defaultSpecifier)
   let cols ← getArr? j "cols" >>= parseWords
   let rows ← getArr? j "rows" >>= (fun a => a.toList.mapM (fun r => match r with | Json.arr c => c.toList.mapM parseCell | _ => none))
   pure { name := name.toList, cols := cols, rows := rows }
@@ -90,7 +93,8 @@ def handle (j : Json) : Json :=
     | some t => Json.mkObj [("tokens", Json.arr ((tokenize t.toList).map tokJson).toArray)]
     | none => err "bad-args"
   | some "print" =>
-    match getArr? j "blocks" >>= (fun a => a.toList.mapM parseBlock), (j.getObjValAs? Bool "number_columns").toOption with
+    -- `number_columns` left out of the request = the keyword left out of the call: the signature default
+    match getArr? j "blocks" >>= (fun a => a.toList.mapM parseBlock), some ((j.getObjValAs? Bool "number_columns").toOption.getD Gen.C02.numberColumnsDefault) with
     | some bs, some nc =>
       match parseComments bs.length j with
       | none => err "bad-args"
@@ -99,6 +103,30 @@ def handle (j : Json) : Json :=
         | none => err "ValueError"
         | some txt => Json.mkObj [("text", str txt), ("read", readJson txt)]
     | _, _ => err "bad-args"
+  | some "remove_lines" =>
+    -- Starfile.write(blocks, p, comments, number_columns) ; Starfile.remove_lines(p, idx, q, specifier, number_columns2) -> text of q
+    match getArr? j "blocks" >>= (fun a => a.toList.mapM parseBlock), getArr? j "idx" with
+    | some bs, some idxJ =>
+      let nc := (j.getObjValAs? Bool "number_columns").toOption.getD Gen.C02.numberColumnsDefault
+      let nc2 := (j.getObjValAs? Bool "number_columns2").toOption.getD Gen.C02.removeLinesNumberColumnsDefault
+      let idx := idxJ.toList.filterMap (fun x => (x.getNat?).toOption)
+      let spec := (getStr? j "specifier").map String.toList
+      match parseComments bs.length j with
+      | none => err "bad-args"
+      | some coms =>
+        match printStarC nc coms (bs.map TBlock.texts) with
+        | none => err "ValueError"
+        | some txt =>
+          match removeLines txt idx spec nc2 with
+          | .ok out => Json.mkObj [("text", str out), ("read", readJson out)]
+          | .error (.sel (.parse e)) => errJson e
+          | .error (.sel _) => err "IndexError"
+          | .error .notFound => err "not-found"
+          | .error .rowIndex => err "IndexError"
+    | _, _ => err "bad-args"
+  | some "ws" =>
+    -- every code point the model takes for white space (compared with str.isspace over all of Unicode)
+    Json.mkObj [("ws", Json.arr (((List.range 0x110000).filter (fun n => isWs (Char.ofNat n) && (Char.ofNat n).toNat == n)).map (fun (n : Nat) => Json.num (JsonNumber.fromNat n))).toArray)]
   | some "cells" =>
     match getArr? j "cells" >>= (fun a => a.toList.mapM parseCell) with
     | some cs => Json.mkObj [("texts", Json.arr (cs.map (fun c => str (cellText c))).toArray),
